@@ -76,7 +76,8 @@ def run(chk):
         "response (parallelism 0 makes run return Err for the whole non-empty batch: configuration error, not a batch)",
         "memory is not modelled: a grid section whose product is astronomically large is bounded but not feasible",
         "outside the class K_yens_k_ge_2 (algorithm = yens and effective k >= 2)"]
-    chk.proofs(extra_targets=["Model/PipelineRun.vo"])
+    # Props/Links2.v: the per-query search component of pipeline_total is discharged for the modelled algorithms
+    chk.proofs(extra_targets=["Model/PipelineRun.vo"], extra_props=["Props/Links2.v"])
     binp = vf.build_harness("c12")
     thorough = chk.tier != "quick"
     n = 10000 if thorough else 2000
